@@ -165,6 +165,40 @@ func daRandParams(r *Rng, valid bool) daParams {
 	return p
 }
 
+// daInvalidParams: the parameter set `b` with ONE field pushed just outside (and further outside) what Params.Validate
+// accepts: every one of them must be refused; an accepted one becomes the parameter set of the rest of the history
+func daInvalidParams(b daParams) []daParams {
+	coin := func(d string, a int64) sdk.Coin { return sdk.Coin{Denom: d, Amount: sdkmath.NewInt(a)} }
+	var out []daParams
+	mk := func(f func(p *daParams)) { p := b; f(&p); out = append(out, p) }
+	one := "1000000000000000000"
+	for _, v := range []string{"-1", "-500000000000000000", "-" + one, "1000000000000000001", "2000000000000000000"} {
+		v := v
+		mk(func(p *daParams) { p.thr = bi(v) })
+		mk(func(p *daParams) { p.sft = bi(v) })
+		mk(func(p *daParams) { p.frac = bi(v) })
+	}
+	for _, v := range []string{"0", "-1", "-" + one} {
+		v := v
+		mk(func(p *daParams) { p.rf = bi(v) })
+	}
+	mk(func(p *daParams) { p.epoch = 0 })
+	for _, v := range []int64{0, -1, -6e9} {
+		v := v
+		mk(func(p *daParams) { p.cp = v })
+		mk(func(p *daParams) { p.pp = v })
+		mk(func(p *daParams) { p.rrp = v })
+		mk(func(p *daParams) { p.vrp = v })
+	}
+	mk(func(p *daParams) { p.pub = sdk.Coins{coin("urise", 5), coin("uaaa", 5)} })
+	mk(func(p *daParams) { p.inv = sdk.Coins{coin("urise", 5), coin("uaaa", 5)} })
+	mk(func(p *daParams) { p.pub = sdk.Coins{coin("urise", 0)} })
+	mk(func(p *daParams) { p.inv = sdk.Coins{coin("urise", 0)} })
+	mk(func(p *daParams) { p.pub = sdk.Coins{coin("urise", 1), coin("urise", 2)} })
+	mk(func(p *daParams) { p.inv = sdk.Coins{{Denom: "urise", Amount: sdkmath.NewInt(-3)}} })
+	return out
+}
+
 // ---------------------------------------------------------------- snapshot of the DA state (queried, canonical)
 type daIt struct {
 	uri, status, publisher string
@@ -797,6 +831,25 @@ func daHistory(e *Env, zk *daZk, h int) {
 		steps += 20
 	}
 	blocksSinceMsg := 0
+	// the names of the items are not in the order of their publication (the stores are ordered by name)
+	uriPerm := r.Perm(100)
+	// directed: every way ONE parameter can be out of range, a different third of them in each history
+	{
+		bad := daInvalidParams(w.par)
+		auth, _ := c.App.AuthKeeper.AddressCodec().BytesToString(c.App.DaKeeper.GetAuthority())
+		for i := h % 3; i < len(bad); i += 3 {
+			np := bad[i]
+			pre := cur
+			e.In("setparams %s", np.line())
+			_, err, p := c.Exec(&datypes.MsgUpdateParams{Authority: auth, Params: np.real()})
+			cls := class(err, p)
+			if cls == "ok" {
+				w.par = np
+			}
+			w.afterMsg("setparams", cls, pre, &cur, nil)
+			e.Stat("setparams.directed_invalid." + cls)
+		}
+	}
 	for k := 0; k < steps; k++ {
 		pre := cur
 		// choose an operation kind by what the state offers
@@ -824,6 +877,11 @@ func daHistory(e *Env, zk *daZk, h int) {
 			return "nope"
 		}
 		kind := r.N(100)
+		// every third history opens with two items published, challenged and proved side by side (the kinds are forced,
+		// the choices inside each operation stay random): several disputed items hold proofs at the same time
+		if script := []int{0, 0, 20, 20, 20, 20, 20, 90, 50, 50, 50, 50, 50, 50, 50, 90}; h%3 == 2 && k < len(script) {
+			kind = script[k]
+		}
 		switch {
 		case kind < 14 || len(pre.items) == 0 && kind < 50: // publish
 			pubr := pickAcc()
@@ -831,7 +889,7 @@ func daHistory(e *Env, zk *daZk, h int) {
 			if len(uris) > 0 && r.N(6) == 0 {
 				uri = uris[r.N(len(uris))] // duplicate, or re-publication of a pruned uri
 			} else {
-				uri = fmt.Sprintf("u%d", nextURI)
+				uri = fmt.Sprintf("u%d", uriPerm[nextURI%100])
 				nextURI++
 				uris = append(uris, uri)
 			}
@@ -1235,6 +1293,17 @@ func (w *daWorld) block(pre daSnap, dt int64, cur *daSnap) (active []string, asg
 		e.Note("no bonded validator left; history ends")
 		e.Stat("history_ended_no_validators")
 		return nil, nil, nil, false
+	}
+	{ // how many challenged items hold validity proofs at the same time
+		with := map[string]bool{}
+		for _, pr := range pre.proofs {
+			with[pr.uri] = true
+		}
+		n := len(with)
+		if n > 3 {
+			n = 3
+		}
+		e.Stat(fmt.Sprintf("block.items_with_proofs.%d", n))
 	}
 	_, err := c.NextBlock(time.Duration(dt))
 	if err != nil {
